@@ -24,7 +24,7 @@ S(t) == [k |-> "set", v |-> t]
 M(a, b) == [k |-> "map", key |-> a, v |-> b]
 BaseTypes == {B("bool"), B("byte"), B("i16"), B("i32"), B("i64"), B("double"), B("string"), B("binary")}
 \* ---- identifier pools ----
-TypeNames == IF Tricky THEN {"Thing", "my_type", "i32x", "stringy", "T2"} ELSE {"Thing", "my_type", "Other", "Rec", "T2"}
+TypeNames == IF Tricky THEN {"Thing", "i32x", "stringy", "voidy", "onewayT", "optionalT"} ELSE {"Thing", "my_type", "Other", "Rec", "T2"}
 FieldNames == IF Tricky THEN {"a", "count", "doubleValue", "optionalThing", "_x", "voidable"} ELSE {"a", "count", "value", "thing", "_x", "name2"}
 MethodNames == IF Tricky THEN {"get", "onewayFn", "voidable", "m2"} ELSE {"get", "put", "fetch", "m2"}
 EnumNames == {"Color", "e2"}
@@ -106,6 +106,12 @@ AddConst == /\ Len(p.consts) < MaxDecls
             /\ \E n \in ConstNames \ Names(p.consts), t \in {B("i32"), B("i64"), B("bool"), B("double"), B("string"), L(B("i32")), M(B("string"), B("i32"))} :
                  \E d \in Defaults(t) \ {[k |-> "none"]} :
                     p' = [p EXCEPT !.consts = Append(@, [name |-> n, t |-> t, v |-> d])]
+\* a constant of an enum type, written the Thrift way: EnumName.VALUE
+AddEnumConst == /\ Len(p.consts) < MaxDecls + 1 /\ ~\E i \in Idx(p.consts) : p.consts[i].v.k = "id"
+                /\ \E e \in Idx(p.enums), n \in ConstNames \ Names(p.consts) :
+                     /\ p.enums[e].vals # <<>>
+                     /\ p' = [p EXCEPT !.consts = Append(@, [name |-> n, t |-> R(p.enums[e].name),
+                                                            v |-> [k |-> "id", s |-> p.enums[e].name \o "." \o p.enums[e].vals[1].name]])]
 AddStruct == /\ Len(p.structs) < MaxDecls
              /\ \E n \in TypeNames \ Declared(p), k \in {"struct", "union", "exception"} :
                   p' = [p EXCEPT !.structs = Append(@, [kind |-> k, name |-> n, fields |-> <<>>, ann |-> FALSE])]
@@ -144,7 +150,7 @@ AddOp == \E s \in Idx(p.scopes) : /\ Len(p.scopes[s].ops) < 2
            /\ \E n \in OpNames \ Names(p.scopes[s].ops), t \in Types(p) :
                 p' = [p EXCEPT !.scopes[s].ops = Append(@, [name |-> n, t |-> t])]
 Next == /\ steps' = steps + 1
-        /\ \/ AddNs \/ AddInclude \/ AddTypedef \/ AddEnum \/ AddEnumValue \/ AddConst \/ AddStruct \/ AddField \/ Annotate
+        /\ \/ AddNs \/ AddInclude \/ AddTypedef \/ AddEnum \/ AddEnumValue \/ AddConst \/ AddEnumConst \/ AddStruct \/ AddField \/ Annotate
            \/ AddService \/ AddMethod \/ AddArg \/ AddThrow \/ AddScope \/ AddOp
 Spec == Init /\ [][Next]_vars
 \* every reachable program is valid (the guards are the well-formedness conditions)
@@ -153,4 +159,5 @@ AlwaysValid == Valid(p)
 Expected(q) == [q EXCEPT !.enums = [i \in Idx(q.enums) |-> [name |-> q.enums[i].name, vals |-> q.enums[i].vals, numbered |-> EnumNumbering(q.enums[i].vals)]]]
 CONSTANT EmitAt
 Emit == (steps = EmitAt) => PrintT("PROG " \o ToJson(Expected(p)))
+Bounded == steps <= EmitAt
 =============================================================================
